@@ -35,6 +35,10 @@ def percentile(a, pct, axis=0, newaxis=None, out=None, overwrite_input=False):
     """
     if not isinstance(a, da.DimArray):
         raise TypeError("Expected DimArray instance got {} of type {}".format(a, type(a)))
+    if isinstance(axis, (tuple, list)):
+        # several dimensions reduced at once, as for the other reductions: flatten them first
+        a = a.flatten(axis, insert=0)
+        axis = 0
     pos, nm = a._get_axis_info(axis)
     results = np.percentile(a.values, pct, axis=pos, out=out, overwrite_input=overwrite_input)
 
